@@ -1346,46 +1346,58 @@ fn exec_tx(t: &[&str]) -> Option<String> {
     }
 }
 
-/// `psend <link> <own> <packet> <responses> [flush answers]`: `Protocol::send_packet` over a real link sender whose
-/// device applies back-pressure; one local handler counts its calls. Observation: device log, result, handler calls.
+/// `psend <link> <own> <p1+p2+…> <responses> [flush answers]`: `Protocol::send_packet` for each packet in turn over a
+/// real link sender whose device applies back-pressure; one local handler counts its calls. Observation: device log,
+/// result per send (serial port: with the cumulative log length), handler calls.
 fn exec_psend(t: &[&str]) -> Option<String> {
     use ross_protocol::protocol::Protocol;
     use std::cell::Cell;
     use std::rc::Rc;
     let link = *t.first()?;
     let own = u16::from_str_radix(t.get(1)?, 16).ok()?;
-    let p = text::parse_packet(t.get(2)?)?;
+    let ps: Vec<Packet> = t.get(2)?.split('+').map(text::parse_packet).collect::<Option<_>>()?;
     let resp = *t.get(3)?;
     let calls = Rc::new(Cell::new(0u32));
     macro_rules! run {
-        ($iface:expr) => {{
+        ($iface:expr, $len:expr) => {{
             let mut pr = Protocol::new(own, $iface);
             let c = calls.clone();
             pr.add_packet_handler(Box::new(move |_p: &Packet, _pr: &mut Protocol<_>| c.set(c.get() + 1)), false).ok()?;
-            match guard(|| pr.send_packet(&p)) {
-                None => "panic",
-                Some(Ok(())) => "ok",
-                Some(Err(_)) => "err",
-            }
+            let rs: Vec<String> = ps
+                .iter()
+                .map(|p| {
+                    let r = match guard(|| pr.send_packet(p)) {
+                        None => "panic",
+                        Some(Ok(())) => "ok",
+                        Some(Err(_)) => "err",
+                    };
+                    match $len() {
+                        Some(n) => format!("{}@{}", r, n),
+                        None => r.to_string(),
+                    }
+                })
+                .collect();
+            rs.join(",")
         }};
     }
     match link {
         "usart" => {
             let sh: Shared = Arc::new(Mutex::new(ByteScript { wresp: if resp == "-" { Default::default() } else { resp.chars().collect() }, ..Default::default() }));
-            let r = run!(Usart::new(UsartDev(sh.clone())));
+            let r = run!(Usart::new(UsartDev(sh.clone())), || None::<usize>);
             let log = text::log_bytes(&sh.lock().unwrap_or_else(|e| e.into_inner()).tx);
             Some(format!("{} {} h{}", log, r, calls.get()))
         }
         "can" => {
             let sh = Arc::new(Mutex::new(CanScript { tresp: if resp == "-" { Default::default() } else { resp.chars().collect() }, ..Default::default() }));
-            let r = run!(Can::new(bxcan::Can::new(CanDev(sh.clone()))));
+            let r = run!(Can::new(bxcan::Can::new(CanDev(sh.clone()))), || None::<usize>);
             let log = can_log(&sh.lock().unwrap_or_else(|e| e.into_inner()).tx);
             Some(format!("{} {} h{}", log, r, calls.get()))
         }
         "serial" => {
             let fl: Vec<bool> = t.get(4)?.chars().map(|c| c == 'o').collect();
             let sh: Shared = Arc::new(Mutex::new(ByteScript { io_resp: parse_io_resps(resp)?.into_iter().collect(), flush_answers: fl.into_iter().collect(), ..Default::default() }));
-            let r = run!(Serial::new(Box::new(SerialDev(sh.clone()))));
+            let sh2 = sh.clone();
+            let r = run!(Serial::new(Box::new(SerialDev(sh.clone()))), || Some(sh2.lock().unwrap_or_else(|e| e.into_inner()).tx.len()));
             let g = sh.lock().unwrap_or_else(|e| e.into_inner());
             Some(format!("{}/f{} {} h{}", serial_log(&g.tx), g.flushes, r, calls.get()))
         }
@@ -1395,16 +1407,22 @@ fn exec_psend(t: &[&str]) -> Option<String> {
 
 fn gen_psend(r: &mut Rng, link: &str) -> String {
     let own: u16 = *r.pick(&[1u16, 0xffff, 0x0a0a, 0]);
-    let len = *r.pick(&[0usize, 3, 8, 9, 15, 30, 100]);
-    let addr = match r.below(3) {
-        0 => own,
-        1 => 0xffff,
-        _ => r.u16(),
-    };
-    let p = text::packet_gen(r.flip(), addr, r.below(1000), len);
+    // one packet, or several sends through the same protocol instance (a failed transmission must not leak into the next)
+    let n = if r.below(3) == 0 { 2 + r.below(2) } else { 1 };
+    let ps: Vec<String> = (0..n)
+        .map(|_| {
+            let len = *r.pick(&[0usize, 3, 8, 9, 15, 30, 100]);
+            let addr = match r.below(3) {
+                0 => own,
+                1 => 0xffff,
+                _ => r.u16(),
+            };
+            text::packet_gen(r.flip(), addr, r.below(1000), len)
+        })
+        .collect();
     let rest = gen_tx(r, link);
     let rest = rest.splitn(2, ' ').nth(1).unwrap_or("-").to_string();
-    format!("{:04x} {} {}", own, p, rest)
+    format!("{:04x} {} {}", own, ps.join("+"), rest)
 }
 
 /* ---------------------------------------------------------------- loop-back and end to end ---- */
